@@ -552,6 +552,7 @@ def offsets_rules(ck, m):
     for h_, body_ in wloops:
         inloop |= body_
     # running offsets: named u64 variables with a definition `R = R + x` inside the loop (MIR: t = copy R; s = Add(t, x); R = s.0)
+    running_at = {}
     running = {}
 
     def copies_of(l_, seen_=None):
@@ -581,6 +582,7 @@ def offsets_rules(ck, m):
                         p_ = (o_.get('c') or o_.get('m')) if isinstance(o_, dict) else None
                         if p_ and R in copies_of(p_['l']):
                             running.setdefault(R, set()).add(b2)
+                            running_at.setdefault(R, set()).add((b2, s2))
     def chain(op_):
         """locals in the backward copy chain of an operand"""
         out, st = set(), []
@@ -607,11 +609,18 @@ def offsets_rules(ck, m):
             continue
         for a_ in t_['args']:
             for R, incs in running.items():
-                if R in chain(a_):
+                ch_ = chain(a_)
+                if R in ch_:
                     ncalls += 1
-                    for ib_ in incs:
+                    # where the running offset is READ for this argument: the copies `x = R` on the chain (a value copied before the
+                    # advance and handed on afterwards is the offset of THIS record), else the call itself
+                    reads_ = {(b2, s2) for l_ in ch_ for (b2, s2, k2, pl2) in wb.defs().get(l_, [])
+                              if k2 == 'assign' and pl2['k'] == 'use' and ((pl2['o'].get('c') or pl2['o'].get('m') or {}).get('l') == R)
+                              and not (pl2['o'].get('c') or pl2['o'].get('m') or {}).get('p')} or {(bi_, 1 << 30)}
+                    for (ib_, is_) in running_at.get(R, ()):
                         # reachable from the increment inside the same iteration (not through the loop head)
-                        if ib_ != bi_ and bi_ in wb.reach_from([ib_], stop=lambda q: any(q == h_ for h_, _ in wloops)):
+                        reach_ = wb.reach_from([ib_], stop=lambda q: any(q == h_ for h_, _ in wloops))
+                        if any((ib_ != rb_ and rb_ in reach_) or (ib_ == rb_ and is_ < rs_) for rb_, rs_ in reads_):
                             late.append('%s gets %s after it was advanced at %s' % (callee(t_).split('::')[-1], wb.var_name(R), wb.loc(ib_)))
     ck.ob('C06.i', short(wb.id), 'offset-recorded-before-advance', not late,
           'every offset recorded for an entry is read before the running offset is advanced past the record' if not late else
